@@ -161,6 +161,10 @@ if z3 is not None:
     EXTERNS["HedTag.base_tag_has_attribute"] = _tag_base_has_attribute
     EXTERNS["base_has_attr"] = _tag_base_has_attribute
     EXTERNS["ErrorHandler.format_error"] = _format_error
+    # format_error_from_context(kind, error_context, *args, ...) = format_error(kind, *args, ...) + context entries and character
+    # positions stamped on the single issue (code / severity / kind are those of format_error)
+    EXTERNS["ErrorHandler.format_error_from_context"] = lambda interp, args, kwargs: _format_error(
+        interp, [args[0]] + list(args[2:]), {k: v for k, v in kwargs.items() if k != "error_context"})
     EXTERNS["HedTag.has_attribute"] = _tag_has_attribute
     EXTERNS["has_attr"] = _tag_has_attribute
     EXTERNS["HedTag.is_basic_tag"] = _tag_is_basic
